@@ -392,12 +392,32 @@ def oracle_c03(E, world, res):
     E.check("checked", True)
 
 
+def oracle_c04(E, world, res):
+    """Confidence of every written record (first-pass, second-pass, joined) is the sum of the scores of exactly the positions it
+    reports, and no label is paired twice in it"""
+    if not oracle_no_exception(E, world, res):
+        return
+    seen = set()
+    numeric = []
+    for mode, fname, rows in all_files(res):
+        for row in rows:
+            if id(row) in seen:
+                continue
+            seen.add(id(row))
+            numeric.append(row.confidence == sum((p.score for s in row.segments for p in s.positions), 0))
+            numeric.append(And([s.segmentScore == sum((p.score for p in s.positions), 0) for s in row.segments]))
+            ps = pairs_of(row)
+            if len({a for a, _ in ps}) != len(ps) or len({b for _, b in ps}) != len(ps):
+                E.fail("no-label-is-counted-in-two-pairs-of-one-record")
+    E.check("confidence-is-the-sum-of-the-scores-of-the-reported-positions", And(numeric))
+
+
 def oracle_c07(E, world, res):
     oracle_no_exception(E, world, res)
     E.check("checked", True)
 
 
-MP_ORACLES = {"C01": oracle_c01, "C03": oracle_c03, "C05": oracle_c05, "C07": oracle_c07, "C08": oracle_c08}
+MP_ORACLES = {"C01": oracle_c01, "C03": oracle_c03, "C04": oracle_c04, "C05": oracle_c05, "C07": oracle_c07, "C08": oracle_c08}
 
 
 def make_body(prop):
